@@ -133,4 +133,22 @@ func gen(rng *rand.Rand, tier core.Tier, emit core.Emit) {
 		}
 		emit(op, fmt.Sprint(rng.Intn(6)), fmt.Sprint(rng.Intn(6)), strings.Join(init, ","), client)
 	}
+	// revival with a countdown of one to three nanoseconds that is also the interval, over a dozen servers without a port: the
+	// ready time of each probe is drawn from [now, now+countdown) — with an inclusive upper end a quarter to a half of the draws
+	// land on the expiry and the queue drops them while the cycle still counts them.  Every run draws anew (the project's
+	// random source is the process-wide one): many servers and several cases make a miss practically impossible.
+	for c := 0; c < 12; c++ {
+		epoch := Epoch0.UnixNano()
+		adv := int64(3600+c) * sec
+		now := epoch + adv
+		countdown := int64(1 + c%3)
+		var init []string
+		for i := 0; i < 12; i++ {
+			a := fmt.Sprintf("%d.%d.0.%d:%d", 1+i%3, i/3%2, 1+i/6, 10480+100*(i%2))
+			status := []int{2, 6, 4, 6 | 32, 2 | 4 | 8}[i%5]
+			init = append(init, fmt.Sprintf("call|add!%s/10481/%d/1/%d!refuse", a, status, now-int64(10+i)*sec))
+		}
+		init = append(init, fmt.Sprintf("adv%d", adv))
+		emit("cycle0", "2", "2", strings.Join(init, ","), fmt.Sprintf("revive|%d|%d|%d", countdown, 3600*sec, countdown))
+	}
 }
